@@ -68,7 +68,7 @@ CHECKS = {
         "level": "exploration",
         "ref": "DESIGN.md section 2, C08",
         "technique": "property-based testing: rail report recomputed from solve() rows and the spec's supplier relation (Hypothesis)",
-        "text": "Generated systems with rail names on any subset of non-loads (parents addressed by rail or name), limits that produce warnings, phases and PMux. Expected rows = exactly the (phase, rail) pairs with members by the spec's supplier relation; voltage, current, power, loss are re-summed from solve() rows (1e-9) and warning tokens are the union of the members'; without rails the report must equal solve() cell for cell.",
+        "text": "Generated systems with rail names on any subset of non-loads (parents addressed by rail or name), limits that produce warnings, phases and PMux. Expected rows = exactly the (phase, rail) pairs with members by the spec's supplier relation; voltage, current, power, loss are re-summed from solve() rows (1e-9) and warning tokens are the union of the members'; without rails the report must equal solve() cell for cell. Half of the cases pass drawn solve() arguments (ta, phase, energy, tags, vtol, itol) to both calls: the report must summarise that very table.",
         "note": "I7: None or empty frame accepted when rails feed nothing. Efficiency column of the report not asserted.",
     },
     "C09": {
@@ -82,7 +82,7 @@ CHECKS = {
         "level": "exploration",
         "ref": "DESIGN.md section 2, C10",
         "technique": "property-based testing: independent piecewise-linear reference (both triangulations inside a cell) vs the component's interpolator and vs solve() of a pinning probe system (Hypothesis)",
-        "text": "Generated well-conditioned 1-D and 2-D tables for every tabulated parameter of every kind are queried on all grid points, on grid lines, inside cells, in all 8 outside regions and far outside. Values must equal the table entry / 1-D linear value / one of the two cell triangulations within the corner range / the clamped value, never NaN; the same through the public API with both supply polarities; an all-equal table must behave as the constant.",
+        "text": "Generated well-conditioned 1-D and 2-D tables (float or Python-int breakpoints, axes also written with negative numbers, vi rows in any order) for every tabulated parameter of every kind are queried on all grid points, on grid lines, inside cells, in all 8 outside regions and far outside. Values must equal the table entry / 1-D linear value / one of the two cell triangulations within the corner range / the clamped value, never NaN; the same through the public API with both supply polarities; an all-equal table must behave as the constant.",
         "note": "I4. 'Largest coordinate' taken over both axes. Direct stream uses the private _ipr._interp; tolerance 1e-7 relative.",
     },
     "C11": {
@@ -138,14 +138,14 @@ CHECKS = {
         "level": "exploration",
         "ref": "DESIGN.md section 2, C18",
         "technique": "property-based testing: recording callbacks + reference model of the depletion loop, expected current from an independently built and solved copy of the system (Hypothesis)",
-        "text": "Scripted battery models (data: capacity, voltage and resistance curves) record every callback argument. A model of the loop predicts, per step, the phase (cycling in declared order), the duration and the battery current (from a freshly built copy of the system with the battery's present voltage and impedance, solved for that phase through the public solve()), the log rows, the strictly increasing time and the stopping point; non-Source names must raise ValueError.",
+        "text": "Scripted battery models (data: capacity, voltage and resistance curves; state handed over as tuple, list, array or one list object updated in place) record every callback argument. A model of the loop predicts, per step, the phase (cycling in declared order), the duration and the battery current (from a freshly built copy of the system with the battery's present voltage and impedance, solved for that phase through the public solve()), the log rows, the strictly increasing time and the stopping point; non-Source names must raise ValueError.",
         "note": "Current compared at 3e-5 relative (batt_life's internal tolerances). Positive battery voltages only.",
     },
     "C19": {
         "level": "exploration",
         "ref": "DESIGN.md section 2, C19",
         "technique": "property-based testing: DOT output of make_diag/make_hdiag parsed back and compared with the spec (also after generated edit histories), the configuration precedence rule and losses recomputed from solve(); SI formatter checked directly (Hypothesis)",
-        "text": "For generated systems, groups and three-level configuration overrides the Graphviz source is parsed back: node set, directed edge set, cluster membership, every node/cluster/edge/graph attribute by precedence, unchanged caller configuration; heat labels within 0.5 % of the duration-weighted loss, colours decoding to loss/maxloss, extreme colours for the largest/zero loss, legend showing the maximum.",
+        "text": "For generated systems, groups (also names of blanks) and three-level configuration overrides (keys in any insertion order) the Graphviz source is parsed back: node set, directed edge set, cluster membership, every node/cluster/edge/graph attribute by precedence, unchanged caller configuration; heat labels within 0.5 % of the duration-weighted loss, colours decoding to loss/maxloss, extreme colours for the largest/zero loss, legend showing the maximum.",
         "note": "Checks the DOT source handed to Graphviz, not rendered pixels.",
     },
 }
